@@ -148,6 +148,19 @@ func newPackage(program *loader.Program, pkgInfo *loader.PackageInfo, plugins []
 			}
 		}
 	}
+	// A name that the user's files use for anything else, a local variable for one, is out of reach for a made-up name too:
+	// inside that scope a call that -autoname renames to it would be a call of the variable.
+	for _, file := range pkgInfo.Files {
+		if f := program.Fset.File(file.Pos()); f == nil || filepath.Base(f.Name()) == derivedFilename {
+			continue
+		}
+		ast.Inspect(file, func(n ast.Node) bool {
+			if id, isIdent := n.(*ast.Ident); isIdent && id.Name != "_" {
+				reserved[id.Name] = struct{}{}
+			}
+			return true
+		})
+	}
 	// So are the names under which the files of the package import other packages, and what a dot import brings along:
 	// a function of the package cannot bear one of them either.
 	for _, file := range pkgInfo.Files {
